@@ -36,23 +36,36 @@ class ShorthandsAdapter:
         if init['customPrefix']:
             base_ns['init_prefix'] = prefix
         Base = type('ProtoBase', (desper.Prototype,), base_ns)
+        self.base = Base
         self.cls = type('ProtoSub', (Base,), sub_ns) if init['overridden'] else Base
+        # a sibling prototype over the SAME component types with no construction source at all: anything a prototype
+        # class remembers about a type must not leak into another prototype class
+        self.sibling = type('ProtoPlain', (desper.Prototype,), {'component_types': base_ns['component_types']})
+        self.counter = getattr(self, 'counter', 0) + 1
         self.tn = {c: i for i, c in self.types.items()}
 
     def step(self, name, args, pre):
         def it():
-            p = self.cls()
-            a = list(p)
-            b = list(p)          # iterating twice yields fresh objects each time
-            return a, b
+            order = [self.sibling, self.base, self.cls] if self.counter % 2 else [self.cls, self.base, self.sibling]
+            out = {}
+            for k in order:
+                p = k()
+                out[k] = (list(p), list(p))          # iterating twice yields fresh objects each time
+            return out
         v, ex = guarded(it)
         if ex is not None:
             return {'produced': 'EXC:' + type(ex).__name__, 'fresh': False}
-        a, b = v
-        return {'produced': tuple((self.tn.get(type(x), -1), getattr(x, 'src', '?')) for x in a),
-                'again': tuple((self.tn.get(type(x), -1), getattr(x, 'src', '?')) for x in b),
+        a, b = v[self.cls]
+
+        def show(xs):
+            return tuple((self.tn.get(type(x), -1), getattr(x, 'src', '?')) for x in xs)
+        return {'produced': show(a), 'again': show(b),
+                'base': show(v[self.base][0]), 'sibling': show(v[self.sibling][0]),
                 'fresh': len({id(x) for x in a + b}) == len(a) + len(b)}
 
     def expect(self, name, args, pre, post):
         prod = tuple(tuple(x) for x in post['produced'])
-        return {'produced': prod, 'again': prod, 'fresh': True}
+        # the base prototype class has the prefixed methods without the subclass overrides; the sibling has nothing
+        base = tuple((t, 'prefix' if s == 'override' else s) for t, s in prod)
+        sibling = tuple((t, 'default') for t, s in prod)
+        return {'produced': prod, 'again': prod, 'base': base, 'sibling': sibling, 'fresh': True}
